@@ -149,6 +149,27 @@ def check(rep, tier, seed):
     for c, a in zip(hc, himpl):
         if a.startswith("err UnknownFieldRef") or a.startswith("panic"):
             bad.append((f"hist {c['H']}", a, "a record with a field made optional/added and later made transient is not encodable"))
+    # (d) transient constructors (static route, real macro): encoding one is the dedicated error naming type and
+    # constructor; encoding any other constructor of the same enum is not
+    from . import c13
+    tcs, texp = [], []
+    for i, d in enumerate(env):
+        if d["kind"] != "enum" or not any(v["transient"] for v in d["variants"]):
+            continue
+        for j, v in enumerate(d["variants"]):
+            for _ in range(3 if tier == "quick" else 30):
+                tcs.append({"cmd": "srt", "w": i, "val": c13.variant_value(rng, env, i, j), "sfx": "-"})
+                texp.append((d["name"], v["name"], bool(v["transient"])))
+    tbad, tdis, tl, timpl = R.static_block(harness, model, wd, tcs, env, "tc", lambda c, a: (True, ""))
+    sdis += tdis
+    for (tn, vn, tr), l, a in zip(texp, tl, timpl):
+        enc_part = a.split(" ; ")[0]
+        want = f"err SerTransientCtor({vn.encode().hex()},{tn.encode().hex()})"
+        if tr and enc_part != want:
+            bad.append((l, a, f"a transient constructor is not refused with {want}"))
+        if not tr and not enc_part.startswith("ok "):
+            bad.append((l, a, "a persisted constructor is refused"))
+    rep.coverage["transient_constructor_cases"] = len(tcs)
     C.proof_coverage(rep, ob, "C14")
     rep.coverage.update({
         "evaluations": len(sc) + len(dc) + len(hc), "distinct_nontrivial": len(set(hl)) + len(set(C.codec_line(c) for c in dc)),
